@@ -1,8 +1,8 @@
 package mon
 
 import (
-	"context"
 	"bytes"
+	"context"
 	"fmt"
 	"sort"
 	"strings"
